@@ -115,6 +115,13 @@ def standard_lattice(seed, quick):
         {"kwargs": {"max_iteration": 30}},
         {"kwargs": {"accumulate_weights": True}},
         {"kwargs": {"poolsize": 7, "drawsize": 3}},
+        {"kwargs": {"check_acceptance": True}},
+        {"kwargs": {"check_acceptance": True, "accumulate_weights": True}},
+        # partial reparameterisation: the rest goes to the fallback; listed in an order different
+        # from the model's
+        {"model": "G3", "kwargs": {"reparameterisations": {"x1": "rescaletobounds"}}},
+        {"model": "G3a", "kwargs": {"reparameterisations": {"a": "rescaletobounds"}}},
+        {"model": "G2ba", "kwargs": {"reparameterisations": {"a": "rescaletobounds"}}},
         # proposals / reparameterisations with auxiliary parameters that carry their own prior
         {"kwargs": {"reparameterisations": {"x0": "periodic"}}},
         {"kwargs": {"flow_proposal_class": "augmentedflowproposal"}},
